@@ -315,4 +315,138 @@ theorem rtPs : ∀ (ps : Params), psNil ps = false → wfPs ps = true → ∀ (e
       simp only [h2]
 end
 
+/-! ### soundness: whatever the parser model returns is a well-formed declarator -/
+
+theorem wf_concrete_not_leaf : ∀ d : Decl, wf .concrete d = true → isLeafAbstract d = false
+  | .abstract, h => by simp [wf] at h
+  | .ident _, _ | .ptr _ _, _ | .paren _, _ | .arr _, _ | .fn _ _ _, _ | .bitfield _, _ => rfl
+
+/-- the empty abstract declarator is returned only where nothing was consumed -/
+theorem abstract_leaf_consumes_nothing : ∀ (f : Nat) (ts r : List Tok),
+    (parseD .abstract f ts = some (.abstract, r) → r = ts) ∧ (parseDirect .abstract f ts = some (.abstract, r) → r = ts) ∧
+    (∀ inner, suffixes f inner ts = some (.abstract, r) → inner = .abstract ∧ r = ts)
+  | 0, _, _ => by simp [parseD, parseDirect, suffixes]
+  | f + 1, ts, r => by
+    have ih := abstract_leaf_consumes_nothing f
+    refine ⟨?_, ?_, ?_⟩
+    · intro h
+      unfold parseD at h
+      split at h
+      · split at h <;> simp at h
+      · exact (ih ts r).2.1 h
+    · intro h
+      unfold parseDirect at h
+      split at h <;> first
+        | contradiction
+        | exact ((ih _ r).2.2 _ h).2
+        | (split at h <;> first
+            | (have hh := ((ih _ r).2.2 _ h).1; cases hh; done)
+            | exact ((ih _ r).2.2 _ h).2
+            | (simp at h; done))
+        | (simp at h; done)
+        | (cases h; rfl)
+    · intro inner h
+      unfold suffixes at h
+      split at h
+      · split at h
+        · (have hh := ((ih _ r).2.2 _ h).1; cases hh; done)
+        · simp at h
+      · (have hh := ((ih _ r).2.2 _ h).1; cases hh; done)
+      · (have hh := ((ih _ r).2.2 _ h).1; cases hh; done)
+      · simp at h
+      · simp at h; exact ⟨h.1, h.2.symm⟩
+
+
+/-- what every function of the parser model returns is well-formed -/
+structure Snd (f : Nat) : Prop where
+  d : ∀ form ts x r, parseD form f ts = some (x, r) → wf form x = true
+  dir : ∀ form ts x r, parseDirect form f ts = some (x, r) → wf form x = true ∧ isPtr x = false
+  suf : ∀ form inner ts x r, suffixes f inner ts = some (x, r) → wf form inner = true → isPtr inner = false →
+    wf form x = true ∧ isPtr x = false
+  ps : ∀ ts ps ell r, parseParams f ts = some (ps, ell, r) → wfPs ps = true ∧ (!ell || !psNil ps) = true
+  pl : ∀ ts ps ell r, parseParamList f ts = some (ps, ell, r) → wfPs ps = true ∧ psNil ps = false
+  p : ∀ ts s x r, parseParam f ts = some (s, x, r) → (wf .concrete x || wf .abstract x) = true
+
+theorem snd : ∀ f, Snd f
+  | 0 => by constructor <;> intros <;> simp_all [parseD, parseDirect, suffixes, parseParams, parseParamList, parseParam]
+  | f + 1 => by
+    have ih := snd f
+    constructor
+    · intro form ts x r h
+      unfold parseD at h
+      split at h
+      · split at h
+        · rename_i heq
+          cases h
+          simpa [wf] using ih.d _ _ _ _ heq
+        · simp at h
+      · exact (ih.dir _ _ _ _ h).1
+    · intro form ts x r h
+      unfold parseDirect at h
+      split at h
+      · exact ih.suf .concrete _ _ _ _ h rfl rfl
+      · simp at h
+      · split at h
+        · rename_i heq
+          have hw := ih.d _ _ _ _ heq
+          exact ih.suf .concrete _ _ _ _ h (by simp [wf, hw, wf_concrete_not_leaf _ hw]) rfl
+        · simp at h
+      · exact ih.suf .abstract _ _ _ _ h rfl rfl
+      · rename_i r0 hne
+        split at h
+        · rename_i d r2 heq
+          have hw := ih.d _ _ _ _ heq
+          have hnl : isLeafAbstract d = false := by
+            cases d with
+            | abstract =>
+              have := (abstract_leaf_consumes_nothing f r0 (.rparen :: r2)).1 heq
+              exact absurd this.symm (hne r2)
+            | _ => rfl
+          exact ih.suf .abstract _ _ _ _ h (by simp [wf, hw, hnl]) rfl
+        · exact ih.suf .abstract _ _ _ _ h rfl rfl
+      · exact ih.suf .abstract _ _ _ _ h rfl rfl
+      · simp at h
+      · cases h; exact ⟨rfl, rfl⟩
+    · intro form inner ts x r h hw hp
+      unfold suffixes at h
+      split at h
+      · split at h
+        · rename_i ps ell r2 heq
+          have hps := ih.ps _ _ _ _ heq
+          exact ih.suf form _ _ _ _ h (by simp [wf, hw, hp, hps.1, hps.2]) rfl
+        · simp at h
+      · exact ih.suf form _ _ _ _ h (by simp [wf, hw, hp]) rfl
+      · exact ih.suf form _ _ _ _ h (by simp [wf, hw, hp]) rfl
+      · simp at h
+      · cases h; exact ⟨hw, hp⟩
+    · intro ts ps ell r h
+      unfold parseParams at h
+      split at h
+      · cases h; exact ⟨rfl, rfl⟩
+      · simp at h
+      · have := ih.pl _ _ _ _ h
+        exact ⟨this.1, by simp [this.2]⟩
+    · intro ts ps ell r h
+      unfold parseParamList at h
+      split at h
+      · simp at h
+      · rename_i heq; cases h; exact ⟨by simp [wfPs, ih.p _ _ _ _ heq], rfl⟩
+      · rename_i heq; cases h; exact ⟨by simp [wfPs, ih.p _ _ _ _ heq], rfl⟩
+      · rename_i heq
+        split at h
+        · rename_i heq2
+          cases h
+          exact ⟨by simp [wfPs, ih.p _ _ _ _ heq, (ih.pl _ _ _ _ heq2).1], rfl⟩
+        · simp at h
+      · rename_i heq; cases h; exact ⟨by simp [wfPs, ih.p _ _ _ _ heq], rfl⟩
+    · intro ts s x r h
+      unfold parseParam at h
+      split at h
+      · split at h
+        · rename_i heq; cases h; simp [ih.d _ _ _ _ heq]
+        · split at h
+          · rename_i heq; cases h; simp [ih.d _ _ _ _ heq]
+          · simp at h
+      · simp at h
+
 end PsycheModel.DeclParser
